@@ -180,6 +180,11 @@ def resolve_unwindset(harness, unwindset):
 def _limits(mem_gb):
     def f():
         os.setsid()
+        # CBMC recurses deeply over large expressions (struct copies of the redb model state)
+        try:
+            resource.setrlimit(resource.RLIMIT_STACK, (resource.RLIM_INFINITY, resource.RLIM_INFINITY))
+        except (ValueError, OSError):
+            pass
         if mem_gb:
             b = int(mem_gb * (1 << 30))
             resource.setrlimit(resource.RLIMIT_AS, (b, b))
@@ -239,6 +244,8 @@ def parse_kani(out):
             r["error"] = "ICE"
         elif re.search(r"^error(\[E\d+\])?:", out, re.M):
             r["error"] = "compile error"
+        elif "CBMC failed with status 139" in out:
+            r["error"] = "CBMC crashed (SIGSEGV)"
         elif "CBMC failed" in out or "Status: ERROR" in out or "out of memory" in out.lower() or "std::bad_alloc" in out:
             r["error"] = "CBMC error/OOM"
         else:
@@ -372,6 +379,78 @@ def native_replay(name, vals, replay_bins):
 
 
 # --------------------------------------------------------------------------------------------
+# E3: MIR -> SMT glue queries
+# --------------------------------------------------------------------------------------------
+
+MIR_DIR = os.path.join(WORK, "mir")
+MIR_TARGET = os.path.join(WORK, "mir-target")
+
+
+def e3_props():
+    sys.path.insert(0, os.path.join(VERIF, "mirsmt"))
+    import queries  # noqa
+    return queries.QUERIES
+
+
+def regenerate_mir():
+    """Dump the MIR of /repo's current working tree with the nightly toolchain.  A per-run nonce cfg
+    forces rustc to run again for the crate itself (dependencies stay cached)."""
+    os.makedirs(MIR_DIR, exist_ok=True)
+    out = os.path.join(MIR_DIR, "iroh_docs.mir")
+    nonce = "verif_mir_nonce_%d" % int(time.time() * 1000)
+    cmd = ["cargo", "+nightly", "rustc", "--offline", "--lib", "--no-default-features", "--target-dir", MIR_TARGET, "--",
+           "-Zunpretty=mir", "-C", "debug-assertions=off", "-C", "overflow-checks=on", "--cfg", nonce, "-A", "unexpected_cfgs"]
+    t = time.time()
+    with open(out, "w") as f:
+        p = subprocess.run(cmd, cwd="/repo", env=ENV, stdout=f, stderr=subprocess.PIPE, text=True)
+    if p.returncode != 0 or os.path.getsize(out) < 1000:
+        log(p.stderr[-3000:])
+        return None, time.time() - t
+    return out, time.time() - t
+
+
+def run_e3(prop, replay_bins):
+    """returns (results, build_s) ; each result: dict with status PASS/FAILED/INCONCLUSIVE"""
+    mir, dt = regenerate_mir()
+    if mir is None:
+        return [{"name": "e3_mir_dump", "family": "e3", "status": "INCONCLUSIVE", "reason": "MIR dump failed", "wall_s": dt}], dt
+    p = subprocess.run([sys.executable, os.path.join(VERIF, "mirsmt", "run.py"), mir, prop], stdout=subprocess.PIPE,
+                       stderr=subprocess.PIPE, text=True)
+    try:
+        data = json.loads(p.stdout)
+    except Exception:
+        return [{"name": "e3_queries", "family": "e3", "status": "INCONCLUSIVE", "reason": "mirsmt failed: " + p.stderr[-500:], "wall_s": dt}], dt
+    res = []
+    for q in data["results"]:
+        r = {"name": "e3_" + q["name"], "family": "e3_" + q["name"], "checks": q.get("queries", 1), "solver_time_s": q.get("solver_time_s"),
+             "wall_s": q.get("solver_time_s"), "detail": q["detail"], "functions": q.get("functions"), "covers": [{"desc": "query reached a verdict", "status": "SATISFIED"}]}
+        if q["verdict"] == "holds":
+            r["status"] = "PASS"
+        elif q["verdict"] == "inconclusive":
+            r.update(status="INCONCLUSIVE", reason=q["detail"])
+        else:
+            # a satisfiable negated property: confirm against the real build with the native witness
+            r["status"] = "FAILED"
+            msg = q.get("check_message", q["name"])
+            rp = {"desc": msg, "vals": None, "witness": q.get("witness"), "reproduced": None, "profiles": {}}
+            if q.get("witness"):
+                ok = []
+                for prof, binp in replay_bins.items():
+                    try:
+                        pr = subprocess.run([binp, "--witness", q["witness"]], stdout=subprocess.PIPE, stderr=subprocess.PIPE, text=True, timeout=300)
+                        rp["profiles"][prof] = {"rc": pr.returncode, "out": (pr.stdout + pr.stderr)[-400:]}
+                        ok.append(pr.returncode == 1)
+                    except Exception as e:  # noqa
+                        rp["profiles"][prof] = {"error": str(e)}
+                        ok.append(False)
+                rp["reproduced"] = all(ok) if ok else None
+            r["replays"] = [rp]
+            r["failed_checks"] = [{"desc": msg, "loc": "MIR", "name": q["name"]}]
+        res.append(r)
+    return res, dt
+
+
+# --------------------------------------------------------------------------------------------
 # known findings
 # --------------------------------------------------------------------------------------------
 
@@ -443,6 +522,13 @@ def decide(prop, tier, harnesses, meta, seed=0, jobs=None, only=None):
             results.append(r)
             log("  %-60s %-12s %6.1fs %s" % (r["name"], r["status"], r.get("wall_s", 0), r.get("reason", "")))
 
+    if prop in e3_props() and not only:
+        log("[%s] E3: regenerating the MIR dump and running the glue queries" % prop)
+        e3res, _ = run_e3(prop, replay_bins)
+        for r in e3res:
+            results.append(r)
+            log("  %-60s %-12s %6.1fs %s" % (r["name"], r["status"], r.get("wall_s") or 0, r.get("reason", "")))
+
     known = load_known()
     violations, known_hits, inconclusive = [], [], []
     for r in results:
@@ -463,7 +549,7 @@ def decide(prop, tier, harnesses, meta, seed=0, jobs=None, only=None):
                     h = hashlib.sha1((r["name"] + rp["desc"]).encode()).hexdigest()[:10]
                     path = os.path.join(REPLAYS, "%s-%s.json" % (prop, h))
                     with open(path, "w") as f:
-                        json.dump({"property": prop, "harness": r["name"], "check": rp["desc"],
+                        json.dump({"property": prop, "harness": r["name"], "check": rp["desc"], "witness": rp.get("witness"),
                                    "concrete_vals": rp.get("vals"), "native": rp.get("profiles"),
                                    "replay_cmd": "%s/check --replay %s" % (VERIF, path)}, f, indent=1)
                     rec["replay"] = path
